@@ -13,7 +13,7 @@
   hypotheses on the input, assembled from per-pass lemmas `post_P` / `keeps_P` (lean/Cog/NF/*.lean).
 -/
 import Cog.NF.EnumNames
-import Cog.NF.SanitizePost
+import Cog.NF.RemoveInter
 import Cog.NF.Witness
 import Cog.Gen.Chains
 namespace Cog.C06
@@ -164,6 +164,18 @@ theorem C06_go_EnumNames (S S' : Schemas) (h : chain goChain S = .ok S') : EnumN
   exact chain_via (H := fun _ => True) (Q := GoEnumOk) .prefixEnumValues
     (fun _ => true) keepsGoEnum goChain (fun _ _ _ _ _ _ => trivial)
     (fun S S' _ hr => post_PrefixEnumValues S S' hr) keepsGoEnum_sound (by decide) S S' trivial h
+
+/-! ## Java -/
+
+/-- Java: every enum is a named object — for EVERY well-formed input (same argument as for Go; the
+    last pass, RemoveIntersections, only moves field lists between objects). -/
+theorem C06_java_EnumsNamed (S S' : Schemas) (hw : wfIR S = true)
+    (h : chain javaChain S = .ok S') : EnumsNamed S' = true := by
+  rw [EnumsNamed_iff]
+  exact chain_via (H := EptOkAll) (Q := AllTop qNoEnum) .anonymousEnumToExplicitType
+    keepsEpt keepsShapeJ javaChain keepsEpt_sound
+    (fun S S' hH hr => post_AnonymousEnumToExplicitType S S' hH hr)
+    (keepsShapeJ_sound qNoEnum qNoEnum_shape) (by decide) S S' (wfIR_EptOkAll hw) h
 
 /-! ## Python -/
 
